@@ -43,11 +43,17 @@
        stay direct") — C01_fragment6_static, C01_fragment6_correct, C01_eval_fragment6; the counter
        ((lambda (n) ((lambda (inc) (inc) (inc)) (lambda () (set! n (if n #f #t)) n))) #f) is inside
        the fragment (C01_counter6) (Proofs/FrameSteps5.v, StoreLocal5.v, Closures6.v .. EvalFragment6.v);
+     * the (define (f x1 ... xn) body ...) SPELLING: the compiler treats it, as an M-computation,
+       exactly as (define f (lambda (x1 ... xn) body ...)) with one level of fuel less —
+       C01_define_spelling — and fragment 6's theorems hold for the sugared datum —
+       C01_sugar_compile6, C01_eval_fragment6_sugar(_session) (Proofs/DefineSugar.v, DefineSugar6.v);
+     * VARARG binds the rest parameter to a fresh proper list of the surplus argument values in
+       order — C01_vararg_rest_list (Proofs/VarArgList.v; machine level only);
    together with the scoping theorems of C02, the frame theorems of C04, the
    continuation theorems of C05 and the run-loop theorems of C07/C13.
    OPEN: the semantic compile-correctness theorem for the whole language
-   (C01_compile_correct_stmt): the (define (f x) ...) spelling, internal definitions, variadic
-   lambdas, builtins applied to closures, quasiquote, define-syntax and the derived forms of the
+   (C01_compile_correct_stmt): internal definitions, variadic lambdas (as expressions), the dotted
+   (define (f . args) ...) spelling, builtins applied to closures, quasiquote, define-syntax and the derived forms of the
    prelude are outside the proved fragments. The
    reference semantics used as the spec oracle by the check is lib/scheme_ref.py.  *)
 From Coq Require Import String.
@@ -589,8 +595,19 @@ Proof. vm_compute. repeat split. Qed.
    ([genv_rel*]; proved for ALL builtin names right after load_builtins, C01_load_builtins_ok, not
    after the prelude), the specification of the builtins used ([builtin_ok], proved for `not`), and
    that the macro expander leaves the form alone (explicit [transform_expr] premise).
-   Not covered: the (define (f x ...) body) spelling (same code as (define f (lambda ...)) up to the
-   free-symbol analysis of the define form), internal definitions, variadic lambdas, builtins
+   The (define (f x1 ... xn) body ...) spelling of a top-level procedure definition IS covered (work
+   package c01e): C01_define_spelling (for a non-primitive symbol name, a proper list of symbol
+   formals and a non-empty body the compiler treats it, as an M-computation, exactly as
+   (define f (lambda (x1 ... xn) body ...)) — same code, same machine, same error — with one level of
+   fuel less; the free-symbol analysis of the define form equals that of the lambda expression),
+   C01_sugar_compile6, C01_eval_fragment6_sugar and C01_eval_fragment6_sugar_session (fragment 6's
+   theorems about the sugared datum).  The spelling with a dotted formal list
+   (define (f . args) ...) is NOT the same computation: the "define" arm of the free-symbol analysis
+   binds the rest symbol, the "lambda" arm does not.
+   For variadic lambdas only the machine lemma is proved: C01_vararg_rest_list (VARARG binds the rest
+   parameter to a fresh proper list of the surplus argument values in order); they are not part of
+   the fragments.
+   Not covered: internal definitions, variadic lambdas (as expressions of the fragment), builtins
    applied to closures, closure results in the _done forms, quasiquote, define-syntax, the
    derived forms of the prelude (they are macros: `let`, `begin`, `cond`, ... expand into the core
    forms of the fragments, but the expander is not part of the proved pipeline), builtins with
@@ -1190,3 +1207,222 @@ Example C01_counter6_run :
    | _ => False
    end).
 Proof. split; [exact counter6_run|split; [exact counter6_1_run|exact counter6_3_run]]. Qed.
+
+(* ============================================================ the (define (f x1 ... xn) body ...) spelling
+   (work package c01e, Proofs/DefineSugar.v, DefineSugar6.v, DefineSugarBoot.v).
+   compile_define (compile.rs:235-296) hands the whole define form to compile_lambda with
+   is_define = true: the formals are the cdr of the head, the free-symbol analysis runs on the
+   define form (its "define" arm pushes the formals exactly as the "lambda" arm does for a proper
+   list of symbols; the fuel of the analysis is irrelevant above the size of the datum,
+   C01_free_symbols_fuel).  [desugar_define] is the syntactic translation on data:
+   (define (x . formals) . body) |-> (define x (lambda formals . body)), anything else unchanged.
+   C01_define_spelling: for a symbol name that is not a primitive symbol, a proper list of symbol
+   formals and a non-empty body, compile_expression on the sugared datum IS compile_expression on
+   the translated datum with one more level of fuel — the same M-computation: same emitted code,
+   same lambda objects, same final machine, same error.  Vm::compile gives compile_expression the
+   fuel S (S (size of the datum)) and the sugared datum is SMALLER than its translation, so the
+   eval-level theorem is re-assembled from the fragment-6 theorems for the lambda expression
+   (C01_sugar_compile6) and the generic HALT-exit lemma C01_eval_of_exec6. *)
+From MW Require Import Proofs.DefineSugar Proofs.DefineSugar6.
+From MW Require Proofs.DefineSugarBoot.
+
+Theorem C01_free_symbols_fuel : forall f1 c env free, (cell_size c < f1)%nat ->
+  forall f2, (cell_size c < f2)%nat -> ffs f1 c env free = ffs f2 c env free.
+Proof. exact ffs_fuel. Qed.
+Print Assumptions C01_free_symbols_fuel.
+
+Theorem C01_desugar_define_unfold : forall x ps fs bodies,
+  sugar6 x ps bodies = CPair DEFINE_ (CPair (CPair (CSym x) (syms_of ps)) (fold_right CPair CNil (map cell_of6 bodies))) /\
+  desugar_define (sugar6 x ps bodies) = cell_of6 (WDefine x (WLam ps fs bodies)).
+Proof. intros x ps fs bodies. split; reflexivity. Qed.
+Print Assumptions C01_desugar_define_unfold.
+
+Theorem C01_define_spelling : forall x ps bs, bs <> [] -> is_primitive_symbol (CSym x) = false ->
+  forall f l tail s,
+    compile_expression (S f) l tail (sugar_cell x ps bs) s =
+    compile_expression (S (S f)) l tail (desugar_define (sugar_cell x ps bs)) s.
+Proof. exact define_spelling. Qed.
+Print Assumptions C01_define_spelling.
+
+(* compile-and-run correctness of the sugared form (the statement of C01_fragment6_static and
+   C01_fragment6_correct for (define x (lambda ...)), about the SUGARED datum), for every fuel
+   the lambda expression needs *)
+Theorem C01_sugar_compile6 :
+  forall (ob : N -> M vcell) (bsem : N -> list rval -> option rval),
+  (forall b, builtin_ok ob bsem b) -> (forall b, builtin_envs ob bsem b) ->
+  forall sc lv sg rho x ps fs bodies r1 sg1 rho1,
+  wf6 (WDefine x (WLam ps fs bodies)) sc ->
+  ref_eval6 bsem sc lv sg rho (WLam ps fs bodies) r1 sg1 rho1 ->
+  forall f l tail s, (cell_size (cell_of6 (WLam ps fs bodies)) <= f)%nat -> hdr6 l sc s -> minv s ->
+  exists l' s' code, compile_expression (S f) l tail (sugar6 x ps bodies) s = ROk l' s' /\
+    fwd l' = fwd l ++ code /\ same_hdr l l' /\ minv s' /\ cext s s' /\ same_regs s s' /\
+    envs (st s') = envs (st s) /\
+    forall m mu lp bc,
+      cext s' m -> minv m -> code_in m lp bc -> seg bc (len (fwd l)) code -> ip m = (lp, len (fwd l)) ->
+      genv_rel6 mu rho m -> lrel6 mu lv m -> store_rel mu sg m -> (tail = true -> tframe m) ->
+      ok_n6 ob mu sg1 m lp (len (fwd l) + len code) (R6Base (RDatum CVoid)) (upd6 rho1 x r1) \/
+      (tail = true /\ ok_t6 ob mu sg1 m (R6Base (RDatum CVoid)) (upd6 rho1 x r1)).
+Proof. exact sugar_compile6. Qed.
+Print Assumptions C01_sugar_compile6.
+
+(* Vm::eval of ANY datum whose top-level compilation succeeded with code that runs correctly *)
+Theorem C01_eval_of_exec6 :
+  forall (ob : N -> M vcell) (c : cell) mu sg rho r sg' rho' s l1 sA code,
+  minv s -> genv_rel6 mu rho s -> store_rel mu sg s ->
+  transform_expr TRANSFORM_FUEL s c = Ok c ->
+  compile_expression (S (S (cell_size c))) top_lam true c s = ROk l1 sA ->
+  fwd l1 = fwd top_lam ++ code -> same_hdr top_lam l1 -> minv sA -> cext s sA -> same_regs s sA ->
+  envs (st sA) = envs (st s) ->
+  (forall m mu0 lp bc,
+      cext sA m -> minv m -> code_in m lp bc -> seg bc (len (fwd top_lam)) code -> ip m = (lp, len (fwd top_lam)) ->
+      genv_rel6 mu0 rho m -> lrel6 mu0 [] m -> store_rel mu0 sg m -> (true = true -> tframe m) ->
+      ok_n6 ob mu0 sg' m lp (len (fwd top_lam) + len code) r rho' \/ (true = true /\ ok_t6 ob mu0 sg' m r rho')) ->
+  exists n m mu', (forall fuel, (n <= fuel)%nat -> eval ob fuel c s = halt_result m) /\
+    (exists more, mu' = mu ++ more) /\ vrep6 mu' m (acc m) r /\ genv_rel6 mu' rho' m /\ store_rel mu' sg' m /\
+    minv m /\ cext s m /\ sp m = sp s /\ bp m = bp s /\ ep m = ep s /\ out_log m = out_log s.
+Proof. exact eval_of_exec6. Qed.
+Print Assumptions C01_eval_of_exec6.
+
+(* C01_eval_fragment6 for the top-level form (define (x p1 ... pn) b1 ... bk) *)
+Theorem C01_eval_fragment6_sugar :
+  forall (ob : N -> M vcell) (bsem : N -> list rval -> option rval),
+  (forall b, builtin_ok ob bsem b) -> (forall b, builtin_envs ob bsem b) ->
+  forall x ps fs bodies mu sg rho r sg' rho' s,
+  wf6 (WDefine x (WLam ps fs bodies)) [] ->
+  ref_eval6 bsem [] [] sg rho (WDefine x (WLam ps fs bodies)) r sg' rho' ->
+  minv s -> genv_rel6 mu rho s -> store_rel mu sg s ->
+  transform_expr TRANSFORM_FUEL s (sugar6 x ps bodies) = Ok (sugar6 x ps bodies) ->
+  exists n m mu', (forall fuel, (n <= fuel)%nat -> eval ob fuel (sugar6 x ps bodies) s = halt_result m) /\
+    (exists more, mu' = mu ++ more) /\ vrep6 mu' m (acc m) r /\ genv_rel6 mu' rho' m /\ store_rel mu' sg' m /\
+    minv m /\ cext s m /\ sp m = sp s /\ bp m = bp s /\ ep m = ep s /\ out_log m = out_log s.
+Proof. exact eval_fragment6_sugar. Qed.
+Print Assumptions C01_eval_fragment6_sugar.
+
+(* ... on the booted machine and every session state (R2) *)
+Theorem C01_eval_fragment6_sugar_session :
+  forall (ob : N -> M vcell) (bsem : N -> list rval -> option rval),
+  (forall b, builtin_ok ob bsem b) -> (forall b, builtin_envs ob bsem b) ->
+  forall x ps fs bodies mu sg rho r sg' rho' s0 s,
+  booted = Some s0 -> FlatAll.evals s0 s ->
+  wf6 (WDefine x (WLam ps fs bodies)) [] ->
+  ref_eval6 bsem [] [] sg rho (WDefine x (WLam ps fs bodies)) r sg' rho' -> genv_rel6 mu rho s -> store_rel mu sg s ->
+  transform_expr TRANSFORM_FUEL s (sugar6 x ps bodies) = Ok (sugar6 x ps bodies) ->
+  exists n m mu', (forall fuel, (n <= fuel)%nat -> eval ob fuel (sugar6 x ps bodies) s = halt_result m) /\
+    (exists more, mu' = mu ++ more) /\ vrep6 mu' m (acc m) r /\ genv_rel6 mu' rho' m /\ store_rel mu' sg' m /\
+    minv m /\ cext s m /\ sp m = sp s /\ bp m = bp s /\ ep m = ep s /\ out_log m = out_log s.
+Proof. exact DefineSugarBoot.eval_fragment6_sugar_session. Qed.
+Print Assumptions C01_eval_fragment6_sugar_session.
+
+(* non-vacuity: (define (flip b) (if b #f #t)) — the datum the reader produces for the text is the
+   sugared datum of the fragment-6 expression (define flip (lambda (b) (if b #f #t))); every
+   hypothesis of C01_eval_fragment6_sugar holds on the empty machine; reference value #<void>,
+   final global environment flip |-> the closure ... *)
+Example C01_define_sugar_example :
+  match Parse.parse_text DefineSugarBoot.flip_src6 with
+  | Ok (d, _) => d = sugar6 DefineSugarBoot.flip6 [DefineSugarBoot.b6] DefineSugarBoot.flip_bodies6
+  | _ => False end /\
+  wf6 DefineSugarBoot.flip_def6 [] /\ minv (vm_empty 8192) /\ genv_rel6 [] rho6_empty (vm_empty 8192) /\
+  store_rel [] [] (vm_empty 8192) /\
+  ref_eval6 bsem_not [] [] [] rho6_empty DefineSugarBoot.flip_def6 vVoid6 []
+            (upd6 rho6_empty DefineSugarBoot.flip6 DefineSugarBoot.flip_val6) /\
+  transform_expr TRANSFORM_FUEL (vm_empty 8192) (sugar6 DefineSugarBoot.flip6 [DefineSugarBoot.b6] DefineSugarBoot.flip_bodies6)
+    = Ok (sugar6 DefineSugarBoot.flip6 [DefineSugarBoot.b6] DefineSugarBoot.flip_bodies6).
+Proof. split; [exact DefineSugarBoot.flip6_parse|exact DefineSugarBoot.flip6_hypotheses]. Qed.
+(* ... and the model: the sugared form then (flip #f) answer #<void> then #t, as does the translated
+   form; the two compilations give the same lambda object, heap and global slots *)
+Example C01_define_sugar_example_run :
+  (match eval other_builtin 300 (sugar6 DefineSugarBoot.flip6 [DefineSugarBoot.b6] DefineSugarBoot.flip_bodies6) (vm_empty 8192) with
+   | ROk (Done c) s1 => c = CVoid /\
+       match eval other_builtin 300 (cell_of6 DefineSugarBoot.flip_call6) s1 with
+       | ROk (Done c') s2 => c' = CBool true /\ sp s2 = 0 /\ bp s2 = 0 /\ ep s2 = USIZE_MAX
+       | _ => False
+       end
+   | _ => False
+   end) /\
+  (match eval other_builtin 300 (desugar_define (sugar6 DefineSugarBoot.flip6 [DefineSugarBoot.b6] DefineSugarBoot.flip_bodies6)) (vm_empty 8192) with
+   | ROk (Done c) s1 => c = CVoid /\
+       match eval other_builtin 300 (cell_of6 DefineSugarBoot.flip_call6) s1 with
+       | ROk (Done c') s2 => c' = CBool true /\ sp s2 = 0 /\ bp s2 = 0 /\ ep s2 = USIZE_MAX
+       | _ => False
+       end
+   | _ => False
+   end).
+Proof. exact DefineSugarBoot.flip6_run. Qed.
+Example C01_define_spelling_example :
+  match compile_expression 50 (lambda_new []) true (sugar6 DefineSugarBoot.flip6 [DefineSugarBoot.b6] DefineSugarBoot.flip_bodies6) (vm_empty 8192),
+        compile_expression 51 (lambda_new []) true (desugar_define (sugar6 DefineSugarBoot.flip6 [DefineSugarBoot.b6] DefineSugarBoot.flip_bodies6)) (vm_empty 8192) with
+  | ROk l1 s1, ROk l2 s2 => l1 = l2 /\ hp s1 = hp s2 /\ g_slots s1 = g_slots s2 /\ fwd l1 <> []
+  | _, _ => False
+  end.
+Proof. exact DefineSugarBoot.flip6_spelling_run. Qed.
+
+(* ============================================================ VARARG: the contents of the rest list
+   (work package c01e, Proofs/VarArgList.v, VarArgExamples.v).  A lambda with a rest parameter is
+   compiled to VARARG ; ENTER ; body ; RET; C04_vararg_frame (Props/C04.v) gives the frame VARARG
+   leaves on the frame of CALL / TCALL.  Here, as one step of the real machine and with the frame
+   facts repeated: the pointer left in the slot of the rest parameter (base + L) is the head of a
+   FRESH PROPER LIST — every spine cell is allocated by this instruction and was not allocated
+   before — whose elements are the surplus actual arguments (the stack slots base+L .. base+m) in
+   order; every cell allocated before is untouched ([hext]) and the heap invariant is kept.  An
+   element is what Heap::put makes of the stack value ([helem]): a pointer is stored as itself, any
+   other value in an allocated cell holding it. *)
+From MW Require Proofs.VarArgProofs Proofs.VarArgList Proofs.VarArgExamples.
+
+Theorem C01_helem_unfold : forall h a v, VarArgList.helem h a v <->
+  (v = VPtr a \/ ((forall q, v <> VPtr q) /\ allocated h a /\ cell_at h a = v)).
+Proof. intros h a v. reflexivity. Qed.
+Print Assumptions C01_helem_unfold.
+
+Theorem C01_hlist_unfold : forall h0 h p vs, VarArgList.hlist h0 h p vs <->
+  match vs with
+  | [] => allocated h p /\ ~ allocated h0 p /\ cell_at h p = VNil
+  | v :: vs' => exists a d, allocated h p /\ ~ allocated h0 p /\ cell_at h p = VPair a d /\
+                            VarArgList.helem h a v /\ VarArgList.hlist h0 h d vs'
+  end.
+Proof. exact VarArgList.hlist_unfold. Qed.
+Print Assumptions C01_hlist_unfold.
+
+Theorem C01_vararg_rest_list : forall (ob : N -> M vcell) s0 s l m,
+  read_opcode s0 = ROk OVarArg s ->
+  cur_lambda s = ROk l s ->
+  1 <= len (l_args l) -> len (l_args l) - 1 <= m ->    (* at least the fixed arguments *)
+  m + 3 <= sp s -> sget s (sp s - 2) = VArgc m ->       (* the frame CALL / TCALL left *)
+  sp s + 1 < scap s -> heap_inv (hp s) ->
+  let L := len (l_args l) in
+  let base := sp s - 3 - m in
+  exists p s',
+    run_one ob s0 = ROk false s' /\
+    sp s' = base + L + 3 /\ VarArgProofs.same_regs s s' /\
+    (forall j, j + 1 <= base + L -> sget s' j = sget s j) /\
+    sget s' (base + L) = VPtr p /\
+    sget s' (base + L + 1) = VArgc L /\
+    sget s' (base + L + 2) = sget s (sp s - 1) /\
+    sget s' (base + L + 3) = sget s (sp s) /\
+    heap_inv (hp s') /\ QuoteHeapProofs.hext (hp s) (hp s') /\
+    VarArgList.hlist (hp s) (hp s') p (map (fun j => sget s (base + L + N.of_nat j)) (seq 0 (N.to_nat (m + 1 - L)))).
+Proof. exact VarArgList.vararg_step_rest_list. Qed.
+Print Assumptions C01_vararg_rest_list.
+
+(* non-vacuity: the model run on ((lambda (a . rest) rest) 1 2 3) from the empty machine reaches,
+   14 instructions after prepare_eval, the VARARG of the callee in a state that satisfies every
+   hypothesis (3 actual arguments, L = 2) ... *)
+Example C01_vararg_example :
+  prepare_eval VarArgExamples.va_e (vm_empty 8192) = ROk tt VarArgExamples.va_m0 /\
+  RunProofs.steps other_builtin 14 VarArgExamples.va_m0 = Some VarArgExamples.va_s0 /\
+  read_opcode VarArgExamples.va_s0 = ROk OVarArg VarArgExamples.va_s /\
+  cur_lambda VarArgExamples.va_s = ROk VarArgExamples.va_l VarArgExamples.va_s /\
+  len (l_args VarArgExamples.va_l) = 2 /\ 3 + 3 <= sp VarArgExamples.va_s /\
+  sget VarArgExamples.va_s (sp VarArgExamples.va_s - 2) = VArgc 3 /\
+  sp VarArgExamples.va_s + 1 < scap VarArgExamples.va_s /\ heap_inv (hp VarArgExamples.va_s).
+Proof.
+  split; [exact (proj1 VarArgExamples.va_reach)|]. split; [exact (proj1 (proj2 VarArgExamples.va_reach))|].
+  exact VarArgExamples.va_hypotheses.
+Qed.
+(* ... and the evaluations return the rest lists: (2 3), (1 2), (), (3) *)
+Example C01_vararg_example_run :
+  VarArgExamples.result_of VarArgExamples.va_src = VarArgExamples.datum_of (S_ "(2 3)"%string) /\
+  VarArgExamples.result_of (S_ "((lambda args args) 1 2)"%string) = VarArgExamples.datum_of (S_ "(1 2)"%string) /\
+  VarArgExamples.result_of (S_ "((lambda (a . rest) rest) 1)"%string) = VarArgExamples.datum_of (S_ "()"%string) /\
+  VarArgExamples.result_of (S_ "((lambda (a b . rest) rest) 1 2 3)"%string) = VarArgExamples.datum_of (S_ "(3)"%string) /\
+  VarArgExamples.datum_of (S_ "(2 3)"%string) <> None.
+Proof. exact VarArgExamples.va_runs. Qed.
